@@ -11,7 +11,7 @@ from ..core import rule
 from ..engine import cfg as cfgmod, flow
 from ..engine import pattern as P
 from ..engine.facts import dotted, const, src, walk_func, enclosing_stmt, ancestors
-from .common import calls, stmt_nodes, exc_successors, norm_successors, contains, is_subclass, param_default, pn, access_paths, guards_of, return_leaves, arms, branch_paths
+from .common import calls, stmt_nodes, exc_successors, norm_successors, contains, is_subclass, param_default, pn, access_paths, guards_of, return_leaves, arms, branch_paths, resolve
 from .common import _fold_not as fold_not
 
 
@@ -95,7 +95,9 @@ def freshness_polarity(ctx):
         if par:
             ret_cached = any(isinstance(s, ast.Return) and src(s.value) == T_ for s in par[0].body)
             ret_cached_else = any(isinstance(s, ast.Return) and src(s.value) == T_ for s in par[0].orelse)
-    mt = "ST_MTIME" in r or "st_mtime" in r or "getmtime" in r
+    other_side = c.comparators[0] if "_modified_time" in src(c.left) else c.left
+    r_res = src(resolve(ck, other_side))
+    mt = any(k_ in r + " " + r_res for k_ in ("ST_MTIME", "st_mtime", "getmtime"))
     ctx.check(mt, "compare.mtime", db.where(c), "compile time is compared with %s, not the source's modification time" % r, "compared with %s" % r)
     # r must derive from os.stat(template.filename)
     rr = flow.Reaching(ck)
@@ -256,8 +258,9 @@ def lru(ctx):
     fors = [n for n in walk_func(mg) if isinstance(n, ast.For)]
     sl = None
     for f in fors:
-        if isinstance(f.iter, ast.Subscript) and isinstance(f.iter.slice, ast.Slice):
-            sl = f.iter.slice
+        it_ = resolve(mg, f.iter)
+        if isinstance(it_, ast.Subscript) and isinstance(it_.slice, ast.Slice):
+            sl = it_.slice
     desc = "sorted(..., key=%s, reverse=%s)[%s]" % (src(kw.get("key")) if kw.get("key") is not None else None, rev, src(sl) if sl is not None else None)
     evict_oldest = False
     if by_ts and sl is not None:
